@@ -312,8 +312,12 @@ def impl_dec(mode, tname, cc, enc, data, source="counting", unmarshal=False, roo
     except InputStreamSuperfluousBytesError as e:
         lines.append(f"R superfluous rest={rest_str(e)} cc={cc_str(e.command_code)} obj=None")
     except ConstraintViolatedError as e:
-        rem = e.bytes_remaining
         try:
+            # rendering an error as text (as a logging `except` clause does) must not change what it carries: render first, read then
+            # (seed C13l: a new __str__ drained the live input iterator the pump attaches on the byte-send path; that the attribute
+            # is a one-shot iterator there is how the unchanged code is - it is read once)
+            str(e)
+            rem = e.bytes_remaining
             rem = bytes(rem).hex() if rem is not None else "None"
         except Exception as e2:  # noqa
             rem = "?" + type(e2).__name__
@@ -782,6 +786,14 @@ def impl_objects(mode, tname, cc, enc, data):
             c1 = Canonical(bytes(data), format_in=Binary, tpm_type=tp, command_code=ccobj, lazy=False)
             c2 = Canonical(obj)
             ok = (c1.object == obj) and (list(c2.events) == evs)
+            # the lazy facade (the default), in both access orders: what it shows does not depend on what was asked for first
+            # (seed C11l: `.object` drained the decoder without keeping the events; `.events` was then empty)
+            c3 = Canonical(bytes(data), format_in=Binary, tpm_type=tp, command_code=ccobj)
+            o3 = c3.object
+            ok = ok and (o3 == obj) and (list(c3.events) == evs)
+            c4 = Canonical(bytes(data), format_in=Binary, tpm_type=tp, command_code=ccobj)
+            e4 = list(c4.events)
+            ok = ok and (e4 == evs) and (c4.object == obj)
             out.append(f"C {1 if ok else 0}")
     except Exception as e:  # noqa
         out.append(f"C crash {type(e).__name__}")
